@@ -11,6 +11,7 @@ import A2lVerif.Driver.Merge
 import A2lVerif.Driver.A2ml
 import A2lVerif.Driver.Typed
 import A2lVerif.Driver.Checker
+import A2lVerif.Driver.IncludeWriter
 /-! `a2lmodel`: one request per line on stdin, one canonical answer per line on stdout. -/
 open A2l
 
@@ -22,6 +23,7 @@ def dispatch (line : String) : String :=
   | "amlrt" :: args => Typed.handleRt args
   | "cln" :: args => Cl.handle args
   | "inc" :: args => Inc.handle args
+  | "incw" :: args => IncW.handle args
   | "mrg" :: args => Mg.handle args
   | "mrgraw" :: args => Mg.handleRaw args
   | "lim" :: args => Lim.handle args
